@@ -15,7 +15,7 @@ Qed.
 
 Lemma apply_updates_ok : forall cfg p w w',
   apply_updates cfg p w = (false, w') ->
-  s_rescan (w_st w) = [] -> s_rescan (w_st w') = [] ->
+  s_rescan (w_st w') = [] ->
   (forall k r, dpk w k = Some r -> tbl cfg (w_env w) k = Some r) ->
   (forall k r, dpk w k = Some r -> kroute_is_ours cfg (w_st w) r = true) ->
   (forall k r, tbl cfg (w_env w) k = Some r -> kroute_is_ours cfg (w_st w) r = true -> dpk w k = Some r) ->
@@ -26,7 +26,7 @@ Lemma apply_updates_ok : forall cfg p w w',
   (forall k r, tbl cfg (w_env w) k = Some r -> kroute_is_ours cfg (w_st w) r = false -> desk w k = None ->
                tbl cfg (w_env w') k = Some r).
 Proof.
-  intros cfg p w w' H R0 R' Sub Ours Own. unfold apply_updates in H.
+  intros cfg p w w' H R' Sub Ours Own. unfold apply_updates in H.
   destruct (handle p w) as [ok w1] eqn:Eh. apply handle_frame in Eh. destruct Eh as [H1 H2].
   destruct ok; simpl in H; [|discriminate].
   destruct (fold_left (del_step cfg p) (keys (s_dp (w_st w1))) (false, w1)) as [e1 w2] eqn:Ed.
